@@ -321,6 +321,10 @@ def busStep (st : BusSt) (args : List String) : BusSt × String :=
     match parseHex seed with
     | some sd => ({ st with regs := Drive.genRegs sd }, "ok")
     | none => (st, "bad-op")
+  | ["reg", name] =>
+    match Drive.flatIndex name with
+    | some i => (st, hex (st.regs.toFlat.getD i 0))
+    | none => (st, "bad-op")
   | ["poke", name, v] =>
     match Drive.flatIndex name, parseHex v with
     | some i, some v => ({ st with regs := Regs.ofFlat (st.regs.toFlat.set! i v) }, "ok")
